@@ -155,7 +155,7 @@ impl From<&Instruction> for LocalVariable {
 
 impl From<&AnonymousFunction> for LocalVariable {
     fn from(value: &AnonymousFunction) -> Self {
-        Self::Function(value.params.clone(), value.return_type())
+        Self::Function(value.params.clone(), value.return_type.clone())
     }
 }
 
